@@ -24,16 +24,17 @@ func VH_C08_fragParseMessage() bool {
 	return part < total && len(data) <= len(x)
 }
 
-// vSmallTotal restricts a packet to fragment counts <= 4 in the quick tier (uses the real parser).
+// vSmallTotal restricts a packet's announced fragment count (3 quick, 8 thorough) (uses the real parser).
 func vSmallTotal(p []byte) {
+	lim := uint8(3)
 	if vThorough() {
-		return
+		lim = 8
 	}
 	_, _, t, _, err := parseMessage(p)
-	vAssume(err != nil || t <= 3)
+	vAssume(err != nil || t <= lim)
 }
 
-// verif: sched=coop cover=delivered,pending bounds="two packets from one source through handleTell; quick: 0..4 bytes each, announced fragment counts <= 3; thorough: 0..5 bytes, any count"
+// verif: sched=coop cover=delivered,pending bounds="two packets from one source through handleTell; quick: 0..4 bytes each, announced fragment counts <= 3; thorough: 0..5 bytes, counts <= 8"
 func VH_C08_fragHandleTellSeq() bool {
 	var sent []vSent
 	var got []vGot
